@@ -144,14 +144,20 @@ func genClaim(claim string) error {
 }
 
 func genParseBinaryOps(n *node, arg string) error {
-	l := genName(n.lhs)
-	r := genName(n.rhs)
+	l, lSame := genClaimName(n.lhs)
+	r, rSame := genClaimName(n.rhs)
 	key := keys[n.op]
 	if key == "" {
 		return fmt.Errorf("bad op %q", n.op)
 	}
 	fmt.Fprintf(&out, "op, %s, %s := parseBinaryOp(%s)\n", l, r, arg)
 	fmt.Fprintf(&out, "if op != t.ID%s { return errFailed }\n", key)
+	if lSame != "" {
+		fmt.Fprintf(&out, "if !%s.Eq(%s) { return errFailed }\n", l, lSame)
+	}
+	if rSame != "" {
+		fmt.Fprintf(&out, "if !%s.Eq(%s) { return errFailed }\n", r, rSame)
+	}
 	if l[0] == 't' {
 		if err := genParseBinaryOps(n.lhs, l); err != nil {
 			return err
@@ -163,6 +169,19 @@ func genParseBinaryOps(n *node, arg string) error {
 		}
 	}
 	return nil
+}
+
+// genClaimName is like genName but, for an operand of the claim's pattern that
+// is a constant or an already bound variable, it returns a fresh name (instead
+// of re-binding, which would drop the first binding unchecked) together with
+// the expression that the fresh name must be equal to.
+func genClaimName(n *node) (name string, mustEq string) {
+	if isConstant(n.op) || (isVariable(n.op) && names[n.op]) {
+		mustEq = genName(n)
+		nextTmp++
+		return fmt.Sprintf("d%d", nextTmp-1), mustEq
+	}
+	return genName(n), ""
 }
 
 func genName(n *node) string {
